@@ -180,18 +180,23 @@ func (pc *PolyCtx) Of(t *Term, memo map[int]*Poly) (*Poly, error) {
 			}
 		}
 	case OMod:
+		// Mod(x,k) = x - k*Div(x,k)
 		x, e := pc.Of(t.args[0], memo)
 		if e != nil {
 			return nil, e
 		}
-		d := Div(t.args[0], t.k)
-		dp, e := pc.Of(d, memo)
+		dp, e := pc.divPoly(t.args[0], t.k, memo)
 		if e != nil {
 			return nil, e
 		}
 		p = newPoly()
 		p.addPoly(x, bi(1))
 		p.addPoly(dp, new(big.Int).Neg(t.k))
+	case ODiv:
+		p, err = pc.divPoly(t.args[0], t.k, memo)
+		if err != nil {
+			return nil, err
+		}
 	case OPow:
 		b, e := pc.Of(t.args[0], memo)
 		if e != nil {
@@ -403,6 +408,12 @@ func AlgProve(facts []*Term, goal *Term) (bool, string) {
 		}
 		if len(fps) > 0 && pc.spanProve(d, fps) {
 			return true, fmt.Sprintf("in the linear span of %d assumed equalities", len(fps))
+		}
+		if os.Getenv("GOVC_DEBUG") != "" {
+			fmt.Fprintf(os.Stderr, "alg: span failed with %d fact polys; goal poly: %s\n", len(fps), pc.String(d))
+			for _, fp := range fps {
+				fmt.Fprintf(os.Stderr, "alg:   factpoly: %s\n", pc.String(fp))
+			}
 		}
 	}
 	used := 0
@@ -847,4 +858,54 @@ func termSize(t *Term, limit int) int {
 	}
 	rec(t)
 	return n
+}
+
+// divPoly returns the polynomial of floor(x/k) over canonical quotient atoms:
+//   floor(floor(x/a)/k)        = floor(x/(a*k))
+//   floor((x mod a)/k), k | a  = floor(x/k) - (a/k)*floor(x/a)
+//   floor((k*q + r)/k)         = q + floor(r/k)      (q, r from the common split of linear forms)
+func (pc *PolyCtx) divPoly(x *Term, k *big.Int, memo map[int]*Poly) (*Poly, error) {
+	if x.op == OConst {
+		return polyConst(floorDiv(x.k, k)), nil
+	}
+	if x.op == ODiv {
+		return pc.divPoly(x.args[0], new(big.Int).Mul(x.k, k), memo)
+	}
+	if x.op == OMod && new(big.Int).Mod(x.k, k).Sign() == 0 {
+		a, e := pc.divPoly(x.args[0], k, memo)
+		if e != nil {
+			return nil, e
+		}
+		b, e := pc.divPoly(x.args[0], x.k, memo)
+		if e != nil {
+			return nil, e
+		}
+		p := newPoly()
+		p.addPoly(a, bi(1))
+		p.addPoly(b, new(big.Int).Neg(new(big.Int).Div(x.k, k)))
+		return p, nil
+	}
+	out, rest, pulled := splitLin(linOf(x), k)
+	if pulled {
+		p, e := pc.Of(out.build(), memo)
+		if e != nil {
+			return nil, e
+		}
+		rt := rest.build()
+		r := newPoly()
+		r.addPoly(p, bi(1))
+		if rt.op == OConst {
+			r.addMono(Mono{}, floorDiv(rt.k, k))
+		} else if rt.op == ODiv || (rt.op == OMod && new(big.Int).Mod(rt.k, k).Sign() == 0) {
+			q, e := pc.divPoly(rt, k, memo)
+			if e != nil {
+				return nil, e
+			}
+			r.addPoly(q, bi(1))
+		} else {
+			r.addPoly(pc.atom(TS.intern(ODiv, SInt, new(big.Int).Set(k), "", rt)), bi(1))
+		}
+		return r, nil
+	}
+	return pc.atom(TS.intern(ODiv, SInt, new(big.Int).Set(k), "", x)), nil
 }
